@@ -558,7 +558,11 @@ func (fg *FuncGen) fieldOf(xv Val, name string, env *SpecEnv) Val {
 		for i := 0; i < u.NumFields(); i++ {
 			if u.Field(i).Name() == name {
 				ft := u.Field(i).Type()
-				if isStruct(ft) || isArray(ft) {
+				if isStruct(ft) {
+					er := fg.embRef(stT, i, xv.T)
+					return Val{T: fg.loadRef(env.st, er, ft), Typ: ft, Src: er}
+				}
+				if isArray(ft) {
 					return Val{T: fg.loadRef(env.st, fg.embRef(stT, i, xv.T), ft), Typ: ft}
 				}
 				term := fmt.Sprintf("(select %s %s)", fg.get(env.st, fg.fieldComp(stT, i)), xv.T)
